@@ -63,7 +63,7 @@ def step (st : St) (op impl : List String) : St × List String :=
   | ["reclose", side] =>
     (st, if impl.any (fun e => e.startsWith "PANIC") then [s!"[C09] repeated Close on side {side}: {" ".intercalate impl}"] else [])
   | ["close", dir, si] =>
-    ({ st with closes := (nat dir, nat si) :: st.closes }, if impl != ["nil"] && st.mode == "reset" then [s!"[C14] Close of stream {si} on side {dir} returned {" ".intercalate impl}"] else [])
+    ({ st with closes := (nat dir, nat si) :: st.closes, closeAt := st.closeAt ++ [(nat dir, nat si, st.writes.size)] }, if impl != ["nil"] && st.mode == "reset" then [s!"[C14] Close of stream {si} on side {dir} returned {" ".intercalate impl}"] else [])
   | ["resetdone", c] =>
     match impl with
     | r :: t :: _ => (st, if r != "true" then [s!"[C14] cycle {c}: {t} ms after start the closed streams are still registered: the reset handshake never completed in both directions"] else [])
